@@ -248,6 +248,9 @@ CHECKS = {
              "quick": {"procs": 16, "checks_per_proc": 60}, "thorough": {"procs": 32, "checks_per_proc": 600}},
             {"pkg": ".", "test": "TestVerifC05b", "proc_timeout": "60m",
              "quick": {"procs": 16, "checks_per_proc": 40}, "thorough": {"procs": 32, "checks_per_proc": 500}},
+            {"pkg": ".", "test": "TestVerifC05c", "proc_timeout": "60m",
+             "instrument": ["store_message.go", "store_message_queue.go", "group_context.go", "internal/queue"],
+             "quick": {"procs": 16, "checks_per_proc": 25}, "thorough": {"procs": 32, "checks_per_proc": 300}},
         ],
         "rule": "part (a): one case = (group type, window, sender history of 0-8 messages, announcement taken at a drawn counter) x "
                 "{right recipient; another party in the same group; right recipient in another group; another claimed sender; every "
@@ -255,7 +258,7 @@ CHECKS = {
                 "state. part (b): groups of 2-4 members with 1-2 devices in seeded join/activation orders over the simulated network "
                 "(the C08 macro scenario) with the distribution oracle at the fixpoint. non-trivial = always (a) / a simulator-chosen "
                 "delivery happened (b); distinct = distinct hash of the trace.",
-        "required_probes": ["right_recipient_registered", "same_keys_other_group", "chain_keys_everywhere"],
+        "required_probes": ["right_recipient_registered", "same_keys_other_group", "chain_keys_everywhere", "alterations_to_registered_recipient"],
         "assumptions": COMMON_ASSUMPTIONS,
     },
     "C11": {
